@@ -44,7 +44,9 @@ def vsexp(t, d, cache, form="py"):
     k = t[0]
     if k == "scalar":
         dt = T.scalars()[t[1]]._dtype
-        return f"(bits {bits_of(t, d)})", dt.type(d)
+        # plain Python data is plain: `int` / `float` objects (lists of them are what NumPy's own type inference sees when the
+        # library hands a list to it); the NumPy scalar of the field's type is kept for the other input forms
+        return f"(bits {bits_of(t, d)})", ((float(d) if dt.kind == "f" else int(d)) if form == "py" else dt.type(d))
     if k == "string":
         if isinstance(d, tuple):
             return f"(cap {d[1]})", d[1]
